@@ -69,6 +69,9 @@ def ring_stereo_family():
             out.append('C[C%s]1(%s1)N' % (mk_, r1))
         out.append('C[C%s]12CCCC[C@H]2CC1' % mk_)
         out.append('O[C%s]12CCC[C@@H]1CNC2' % mk_)
+    # macrocycles with ring double bonds and conjugated dienes (direction marks meet ring-closure digits)
+    out += ['C/C1=C/CCCCCCCCC1', 'C/C1=C\\CCCCCCCCC1', 'C1=C/CCCCCCCCC/1', 'C/C1=C/C=C/CCCCCCCC1', 'C/C1=C\\C=C/CCCCCCC1', 'O=C1N/C=C/C=C(\\C)CCCCCC1', 'F/C=C1/CCCCC(C)C1',
+            'C1=C/C2=CC(OC)=CC(O)=C2C(=O)O[C@@H](C)C/C=C\\C(=O)[C@@H](O)[C@@H](O)C/1']
     # double bonds: equivalent E/Z pairs
     out += ['C/C=C/CC/C=C/C', 'C/C=C/CC/C=C\\C', 'C/C=C\\CC/C=C\\C', 'C/C=C/C=C/C', 'C/C=C/C=C\\C', 'C/C=C\\C=C/C',
             'C[C@H](O)CC[C@H](O)C', 'C[C@H](O)CC[C@@H](O)C', 'C[C@H](O)[C@H](O)C', 'C[C@H](O)[C@@H](O)C', 'C[C@H](N)C(=O)O', 'CC=C=CC',
